@@ -124,6 +124,7 @@ from ..number import (
     MPBFloatContext,
     MPFixedContext,
     MPSFloatContext,
+    OverflowMode,
     RealFloat,
     RoundingMode,
 )
@@ -249,6 +250,9 @@ class _Prober:
     def describe(self) -> _Source | Declined:
         """`ctx` as a lowerable bounded format, or why it is not one."""
         ctx = self.ctx
+        if getattr(ctx, 'overflow', None) == OverflowMode.WRAP:
+            # two probes can agree by coincidence of the modulus
+            return Declined('wrapping gives a different answer at every magnitude')
         try:
             maxval = ctx.maxval().as_real()
             neg_maxval = ctx.maxval(s=True).as_real()
